@@ -72,6 +72,101 @@ def outcome(p, den):
     return json.dumps(d, sort_keys=True)
 
 
+def sets_round(chk, exe, ps, quick):
+    """The sets the static lookahead works with, read through the hook, must be closed under the rules
+    (FirstFollow.closed_tbl: then they contain the exact FIRST / FOLLOW sets and the filter keeps every useful item)."""
+    rng = chk.rng
+    seen, gl = set(), []
+    for g, strict, w in ps.pairs:
+        k = yvlib.grammar_text(g.as_dict())
+        if k not in seen:
+            seen.add(k); gl.append((g, strict))
+    # grammars with more terminals than one machine word of a terminal set holds (the flag "changed" of a set union must
+    # cover every word): family grammars with unused terminals around the declared ones
+    for _ in range(60 if quick else 400):
+        g = gen.family_grammar(rng, fam=rng.choice(['deepchains', 'chains', 'stmts', 'nullprefix', 'blocks']))
+        if not g.well_formed(False):
+            continue
+        pad = [('u%d' % i, 3000 + i) for i in range(rng.choice([60, 62, 63, 64, 70, 130]))]
+        k_ = rng.randint(0, len(pad))
+        gl.append((gen.Gram(pad[:k_] + g.terms + pad[k_:], g.rules), False))
+    # chains that need many passes of the fixpoint loops, in every order of declaration: nullable through unit rules,
+    # FIRST through leading nonterminals, FOLLOW through trailing nonterminals
+    for _ in range(200 if quick else 1500):
+        k = rng.randint(3, 7)
+        kind = rng.choice(['nullable', 'follow', 'first'])
+        ts = [chr(ord('a') + j) for j in range(k + 1)]
+        if kind == 'nullable':
+            rules = [('N%d' % j, ['N%d' % (j + 1)], None, 0, [0]) for j in range(k)] + [('N%d' % j, [ts[j]], None, 0, [0]) for j in range(k)]
+            rules += [('N%d' % k, [], None, 0, None), ('N%d' % k, [ts[k]], None, 0, [0])]
+            top = [('S', ['N0', 'z'], None, 0, [0]), ('S', ['z', 'N%d' % rng.randrange(k)], None, 0, [0])]
+            terms = [(t, ord(t)) for t in ts] + [('z', 122)]
+        elif kind == 'follow':
+            rules = [('N%d' % j, [ts[j], 'N%d' % (j + 1)], None, 0, [0]) for j in range(k)] + [('N%d' % k, [ts[k]], None, 0, [0])]
+            marks = 'pqrstuvw'
+            top = [('S', [marks[j], 'N%d' % j, marks[j].upper()], None, 0, [0]) for j in range(k + 1)]
+            terms = [(t, ord(t)) for t in ts] + [(marks[j], ord(marks[j])) for j in range(k + 1)] + [(marks[j].upper(), ord(marks[j].upper())) for j in range(k + 1)]
+        else:
+            rules = [('N%d' % j, ['N%d' % (j + 1), ts[j]], None, 0, [0]) for j in range(k)] + [('N%d' % k, [ts[k]], None, 0, [0])]
+            top = [('S', ['N%d' % j, 'z'], None, 0, [0]) for j in rng.sample(range(k + 1), 2)]
+            terms = [(t, ord(t)) for t in ts] + [('z', 122)]
+        order = rng.choice(['down', 'up', 'shuffle'])
+        if order == 'up':
+            rules.reverse()
+        elif order == 'shuffle':
+            rng.shuffle(rules)
+        rng.shuffle(top)
+        if kind == 'follow' and rng.random() < 0.6:
+            # the deeper a nonterminal of the chain, the earlier it is mentioned (and numbered): every pass moves FOLLOW one step
+            top.sort(key=lambda r_: -int(r_[1][1][1:]))
+        allr = top[:1] + (top[1:] + rules if rng.random() < 0.5 else rules + top[1:])
+        used = {x for r_ in allr for x in r_[1]}
+        gl.append((gen.Gram([t for t in terms if t[0] in used], allr), False))
+    script = []
+    for i, (g, strict) in enumerate(gl):
+        script.append('\n'.join(['CASE s%d' % i, 'NEW 0', 'SET 0 0 %d' % rng.choice([0, 1, 2])] + yvlib.script_read(0, g.as_dict(), 1 if strict else 0) + ['SETS 0', 'FREEG 0', 'END']))
+    res = yvlib.run_driver(exe, '\n'.join(script))
+    qs, qi = [], []
+    for i, ((g, strict), r) in enumerate(zip(gl, res)):
+        ops = cp.get_ops(r)
+        if 'abort' in r or 'sets' not in ops or (ops.get('read') or [{}])[0].get('rc') != 0:
+            continue
+        nts = {n['name']: n for n in ops['sets'][0]['nts']}
+        # the model grammar: `error' is an ordinary terminal (one more than the declared ones)
+        tn = dict(g.tnum)
+        tn['error'] = len(tn)
+        code2t = {c: tn[nm] for nm, c in g.terms}
+        code2t[-2] = tn['error']
+        nn = [x for x in g.nts if x != 'error']
+        nnum = {x: j for j, x in enumerate(nn)}
+        enc = [len(g.rules)]
+        for lhs, rhs, an, cost, tr in g.rules:
+            enc += [nnum[lhs], len(rhs)] + [(2 * tn[x] if x in tn else 2 * nnum[x] + 1) for x in rhs] + [0, 0, 0]
+        rows = []
+        ok = True
+        for x in nn:
+            d = nts.get(x)
+            if d is None:
+                ok = False
+                break
+            fo = [0 if c == -1 else code2t[c] + 1 for c in d['follow'] if c == -1 or c in code2t]
+            fi = [code2t[c] for c in d['first'] if c in code2t]
+            rows += [d['empty'], len(fi)] + fi + [len(fo)] + fo
+        if not ok:
+            continue
+        qs.append('FFCLOSED ' + ' '.join(map(str, enc + [nnum[g.start()], len(nn)] + rows)))
+        qi.append(i)
+    ans = yvlib.run_oracle(qs) if qs else []
+    bad = [i for i, a in zip(qi, ans) if a.strip() != '1']
+    for i in bad[:3]:
+        g, strict = gl[i]
+        small = gen.Gram([t for t in g.terms if not (t[0][:1] == 'u' and t[0][1:].isdigit())], g.rules)
+        chk.obl['broken'].append('correspondence FirstFollow.closed_tbl: the nullable flags / FIRST / FOLLOW sets the implementation computed for the grammar `%s\' '
+                                 '(%d terminals declared) are not closed under its rules, so C09_closed_sets_filter_keeps_useful_items does not apply to them' % (
+                                     yvlib.grammar_text(small.as_dict()).replace('\n', ' ')[:400], len(g.terms)))
+    return {'first_follow_sets_checked': len(qs), 'first_follow_sets_not_closed': len(bad)}
+
+
 def run(pid, tier, seed, replay=None):
     chk = Check(pid, tier, seed)
     chk.coq()
@@ -101,9 +196,29 @@ def run(pid, tier, seed, replay=None):
                     if v.get('pad_after') is not None:
                         gd = dict(gd, terms=list(v.get('pad_before', [])) + list(gd['terms']) + list(v['pad_after']))
                     L = ['CASE %s' % cid, 'NEW 0'] + yvlib.script_cfg(0, cfg) + yvlib.script_read(0, gd, 1 if strict else 0)
+                    if not is_long and (seed + 3 * i) % 5 == 1:
+                        # the grammar is read at level 0 (or 2) and the level is set afterwards: what is prepared at definition
+                        # time must serve every level
+                        L = ['CASE %s' % cid, 'NEW 0'] + yvlib.script_cfg(0, dict(cfg, la=(0 if i % 2 == 0 else 2))) + yvlib.script_read(0, gd, 1 if strict else 0) + ['SET 0 0 %d' % la]
+                    # a fifth of the short cases: the object has parsed before (the same input, or the input without its last
+                    # token), at every level alike - what a parse leaves in the grammar must not change the next one
+                    pre = None
+                    if not is_long and (seed + 7 * i) % 5 == 0:
+                        pw = w if (seed + i) % 2 == 0 else w[:-1]
+                        pre = 'PARSE 0 0 %d %s' % (len(pw), ' '.join(map(str, gen.codes_of(g, pw))))
+                        L.append(pre)
                     L += ['VSET -1 0', 'VSET 0 1', 'PARSE 0 0 %d %s' % (len(w), ' '.join(map(str, gen.codes_of(g, w)))), 'COUNTERS', 'FREEG 0', 'END']
-                    script.append('\n'.join(L)); index.append((i, fi, la, dbg, cfg))
+                    script.append('\n'.join(L)); index.append((i, fi, la, dbg, cfg, pre is not None))
     res = yvlib.run_driver(exe, '\n'.join(script), timeout_case=60)
+    for k_, (ix, r) in enumerate(zip(index, res)):
+        if ix[5] and 'ops' in r:
+            # drop the record of the earlier parse: consumers see one parse
+            for j_, o in enumerate(r['ops']):
+                if o.get('op') == 'parse':
+                    r.setdefault('pre_ops', []).append(o)
+                    del r['ops'][j_]
+                    break
+    index = [ix[:5] for ix in index]
     # denotations for the small cases
     qs, qidx = [], []
     for (i, fi, la, dbg, cfg), r in zip(index, res):
@@ -118,6 +233,7 @@ def run(pid, tier, seed, replay=None):
     groups = {}
     stats = {'pairs': len(pairs), 'long_inputs': sum(1 for p in pairs if p[3]), 'max_tokens': max(len(p[2]) for p in pairs),
              'cases': len(index), 'cache_hits': 0, 'selfcheck_mismatches': 0, 'groups': 0}
+    stats.update(sets_round(chk, exe, ps, quick))
     for (i, fi, la, dbg, cfg), r in zip(index, res):
         g, strict, w, is_long = pairs[i]
         ops = cp.get_ops(r)
